@@ -36,7 +36,7 @@
 (***************************************************************************)
 EXTENDS Naturals, Sequences, FiniteSets, TLC
 
-CONSTANTS Scenarios,          \* set of scenario records, see PopulatorMC
+CONSTANTS Scenarios,          \* sequence of sets of scenario records, see PopulatorMC
           NotADirValueError, NoNestDropsOlder
 
 VARIABLES sc,        \* the scenario (never changes)
@@ -59,8 +59,8 @@ SeqsOf(S) == IF S = {} THEN {<<>>} ELSE UNION {{<<x>> \o s : s \in SeqsOf(S \ {x
 (***************************************************************************)
 (* The file tree and the populator's configuration                         *)
 (***************************************************************************)
-Files == sc.files
-Dirs == (UNION {Prefixes(Front(p)) : p \in sc.files} \cup UNION {Prefixes(p) : p \in sc.empty}) \ {<<>>}
+Files == sc.files          \* regular files
+Dirs == sc.dirs            \* directories, empty ones included
 Kind(p) == IF p \in Files THEN "file" ELSE IF p \in Dirs THEN "dir" ELSE "none"
 
 Ext(name) == IF Len(name) > 1 THEN Last(name) ELSE ""           \* os.path.splitext: from the last dot
@@ -75,8 +75,8 @@ RulesAt(c) == IF c = 0 THEN <<>> ELSE RulesAt(c - 1) \o sc.calls[c].add    \* ad
 
 \* Outside the generated domain (DESIGN C16, Lenient): a name that is both a file and a directory,
 \* a trimmed file key that is also a directory of the same map.
-DomainOK == /\ Files \cap Dirs = {}
-            /\ \A p \in Files : Prefixes(Front(p)) \cap Files = {}
+DomainOK == /\ Files \cap Dirs = {} /\ <<>> \notin Files \cup Dirs
+            /\ \A p \in Files \cup Dirs : Len(p) = 1 \/ Front(p) \in Dirs        \* it is a tree
             /\ \A p \in Files : KeyPath(p, TRUE) \notin Dirs
 
 (***************************************************************************)
@@ -181,7 +181,7 @@ ExpectedMade(c) == IF c = 0 THEN {}
 (***************************************************************************)
 (* Behaviours                                                              *)
 (***************************************************************************)
-Init == /\ sc \in Scenarios /\ DomainOK
+Init == /\ (\E fam \in DOMAIN Scenarios : sc \in Scenarios[fam]) /\ DomainOK
         /\ k = 0 /\ maps = {<<>>} /\ layers = (<<>> :> <<NoLayer>>) /\ made = {} /\ exc = "ok"
         /\ reqMaps = {<<>>} /\ okMaps = {<<>>}
 
